@@ -36,7 +36,7 @@ def spec_uint32var(bs):
 class WriteUint32Var(Contract):
     module = "fontTools.ttLib.tables.otTables"
     qualname = "_write_uint32var"
-    props = ("C15",)
+    props = ("C15", "C02")
     rebind = REBIND
     shadow_mode = "function"
 
@@ -55,7 +55,7 @@ class Uint32VarRoundTrip(Contract):
     """_read_uint32var(prefix + _write_uint32var(v) + rest, len(prefix)) == (v, next index)."""
     module = "fontTools.ttLib.tables.otTables"
     qualname = "_read_uint32var"
-    props = ("C15",)
+    props = ("C15", "C02")
     rebind = REBIND
     shadow_mode = "function"
     also = ("_write_uint32var",)
@@ -84,7 +84,7 @@ class Uint32VarRoundTrip(Contract):
 class ReadUint32Var(Contract):
     module = "fontTools.ttLib.tables.otTables"
     qualname = "_read_uint32var"
-    props = ("C15",)
+    props = ("C15", "C02")
     rebind = REBIND
     shadow_mode = "function"
 
